@@ -45,6 +45,52 @@ def check(ctx):
     ctx.guard("C17-C", C01.rule_c, "C17-C", flt)
     ctx.guard("C17-E", rule_e)
     ctx.guard("C17-C", rule_token_progress)
+    ctx.rule("C17-F", "stylesheet text is consumed token by token: above the tokenizer (the functions parse_token reaches) no "
+             "parser function skips text with a raw character scan (take_till / take_until / take_while / is_not / find / split / "
+             "a loop over chars), which would be blind to strings and comments; the tokenizer's own comment scan is the positive control")
+    ctx.guard("C17-F", rule_f)
+
+
+RAW_SCANNERS = ("take_until", "take_until1", "take_till", "take_till1", "take_while", "take_while1", "take_while_m_n", "is_not", "is_a",
+                "find", "rfind", "split", "splitn", "rsplit", "rsplitn", "split_once", "rsplit_once", "split_terminator", "split_inclusive",
+                "trim_start_matches", "trim_end_matches", "trim_matches", "strip_suffix", "lines", "anychar", "not_line_ending", "rest",
+                "position", "rposition", "memchr", "match_indices", "rmatch_indices", "matches", "contains")
+
+
+def rule_f(ctx):
+    F = ctx.facts
+    pt = F.one("css::parser::parse_token")
+    tokenizer = {x for x in F.reachable_from([pt.id]) if x.startswith("css::parser")}
+    ctx.floor("C17-F", "functions of the tokenizer", len(tokenizer), 15)
+    control = 0
+    n = 0
+    for b in F.bodies.values():
+        if not b.span.startswith("src/css/parser.rs") or (b.raw.get("from_expansion") and b.kind != "Closure"):
+            continue
+        root = b.root if b.kind == "Closure" else b.id
+        in_tok = root in tokenizer or b.id in tokenizer
+        for bb, t in b.calls():
+            cd = callee_def(t) or ""
+            nm = cd.split("::")[-1]
+            strish = cd.startswith("nom::") or "<impl str>" in cd or "str::" in cd or "String" in cd
+            raw = nm in RAW_SCANNERS and strish and "PartialEq" not in cd
+            # a loop over the characters of the text
+            if not raw and nm == "next" and ("Chars<" in cd or "CharIndices<" in cd or "Bytes<" in cd) and bb in b.reach_from(t["target"]) if t.get("target") is not None else False:
+                raw = True
+            if not raw:
+                continue
+            if in_tok:
+                control += 1
+                continue
+            n += 1
+            ctx.violation("C17-F", "raw-scan@%s:%s" % (fn_key(b), nm), t["span"], b.id,
+                          "%s scans stylesheet text character by character above the tokenizer: a `;`, `}` or `*/` inside a "
+                          "string or comment ends the scan early, so an unknown property, rule or at-rule can change how the rest "
+                          "of the sheet is read" % nm)
+    ctx.check(control >= 1, "C17-F", "positive-control:tokenizer-comment-scan-found", "", "",
+              "the query must see the tokenizer's own raw scans (match_comment's take_until, the string-token loop)")
+    if not n:
+        ctx.ok("C17-F", "no-raw-scan-above-the-tokenizer", "", "", "0 sites; %d inside the tokenizer" % control, how="auto")
 
 
 def rule_e(ctx):
